@@ -22,6 +22,19 @@ Pipeline
      all channels must return the same configuration (type-aware: 1 != True != 1.0) or all must
      reject.  Invalid settings (wrong type at one key, unknown key) must be rejected by every channel;
  (4) replay of the open findings' witnesses.
+
+Session 2 additions
+ * typed part (Core/ChannelsTyped.lean): `_check_type` / `parse_value_or_config` / `load_value` / `adapt_typehints` with the orig_val
+   mechanism for int | float | bool | str | NoneType | Enum | Union | List | Dict | Tuple | TypedDict; the loaders are parameters.
+   correspond_typed: model viaText / viaValue vs parse_args(--v=TEXT) / parse_env / parse_object on generated (type, value) pairs,
+   valid and invalid, the loaders' tables filled with what the real loaders return;
+ * Gen/ChannelSrc (extractor channel_src): normalised statements of _load_env_vars, _check_value_key, _apply_actions, parse_argv_item,
+   _check_type, _is_valid_string, sort_subtypes_for_union, load_basic, load_list_or_dict, load_value, json_or_yaml_load,
+   parse_value_or_config, _is_action_value_list, _ActionConfigLoad.*, get_env_var and of the transcribed branches of adapt_typehints,
+   pinned by 26 tie_src_* theorems; per container branch whether the items' orig_val is reset (consumed by the model);
+ * oracle grammar: containers whose item type is a Union with str (List[Optional[str]], List[Union[int,str]], Dict[str,Optional[str]],
+   Tuple[Optional[str],int], Optional[List[Optional[str]]], List[List[Union[int,str]]], TypedDict) with items no member accepts;
+   the empty string, blank / padded strings and unicode at str positions; "" and " " as invalid values at non-str positions.
 """
 from __future__ import annotations
 
@@ -40,7 +53,9 @@ from ..lib.common import Ctx, MachineryError, repo_python_path
 MANIFEST = {
     "engine": "Channels",
     "technique": "Lean 4 proofs over an executable model of the channel layer (renderings, dotted/nested addressing, get_env_var naming, "
-                 "canonical value text and its reader, assignment with the Namespace model's setK) + differential correspondence + "
+                 "canonical value text and its reader, assignment with the Namespace model's setK) and of the typed layer (_check_type, "
+                 "parse_value_or_config, load_value, adapt_typehints with orig_val, loaders as parameters) + source ties (26 pinned functions / "
+                 "branches, per-branch orig_val facts consumed by the model) + differential correspondence + "
                  "thirteen-channel differential oracle on generated real parsers",
     "text": "Theorems in lean/Jap/Props/C05.lean prove, for settings lists of any length over keys of any depth: the canonical JSON text of every "
             "value of the grammar is read back to exactly that value (and load_basic returns the same on the scalar texts); the dotted and the nested "
@@ -51,13 +66,25 @@ MANIFEST = {
             "(reader round trip incl. unsigned exponents, same token through every channel); ActionYesNo (_boolean_type as written over the word "
             "table regenerated from the source: case-insensitive, --no_k=w is the negation of --k=w, all spellings give the same boolean); "
             "list-valued options nargs 1/2/+/* (_is_action_value_list; --k v1 v2, JSON list in the variable, list in documents). The model is tied to the code by "
+            "TYPED POSITIONS (Core/ChannelsTyped): for every type of int|float|bool|str|NoneType|Enum|Union|List|Dict|Tuple|TypedDict without a str "
+            "reachable from the top through Unions, every value (valid or invalid) and every text that the loaders read as that value, the text channel "
+            "(_check_type on the option's text: argv, environment) and the value channel (_check_type on the loaded value: documents, objects) give the "
+            "same result or both reject (C05_typed_channels, for EVERY pair of loaders); items of List/Dict/Tuple never see the option's text whatever "
+            "their type (C05_items_never_see_option_text, from facts regenerated out of adapt_typehints); a string at a str position is kept as it is "
+            "whatever the loaders make of it (C05_str_position_keeps_text: '', ' ', 'null', '[1]'); a present-but-empty environment variable is a "
+            "setting (C05_env_empty_variable); negation witness for Union[int,str] (documented ambiguity); the old TypedDict field leak (repaired, F62) "
+            "kept as a regression witness of the fact's old value. "
             "differential correspondence of envVar/get_env_var, textOf/json.dumps, loadText and loadBasic against load_basic, json.loads, yaml_load and "
-            "load_value in every parser mode, the renderings, and apply(render) against the namespace the real parser returns for each channel; the "
+            "load_value in every parser mode, the renderings, apply(render) against the namespace the real parser returns for each channel, and the typed "
+            "model's viaText / viaValue against parse_args / parse_env / parse_object on generated (type, value) pairs; 26 tie_src theorems pin the statements of "
+            "the transcribed functions; the "
             "property itself is evaluated on the real code over generated parsers x settings x thirteen channels.",
     "level_note": "Trusted: Lean kernel; axioms propext/Quot.sound/Classical.choice only; the correspondence harness and its generators. The model's "
                   "reader covers exactly the canonical text of the value grammar (ints, bools, null, safe-ASCII strings, JSON number tokens, flat lists, "
                   "str->int dicts); floats are exact tokens (that they resolve as float under the yaml loader is C01's C05_json_float_sub); "
-                  "scalar resolution of arbitrary text is C01's, the type adapter C02's. jsonnet and omegaconf evaluation are oracles (partial for those "
+                  "scalar resolution of arbitrary text is C01's (the typed layer takes the loaders as parameters; the correspondence fills them with what the real "
+                  "loaders return). Outside the typed model: Literal, Set, registered types (PositiveInt), Any, paths, class/dataclass types, --k+ appends, "
+                  "--k.item assignments, the val == default early return of the retry call, float overflow (oracle only). jsonnet and omegaconf evaluation are oracles (partial for those "
                   "two modes: ints beyond 2^53 and '${' strings are skipped there). argparse tokenisation of '--k v' with v starting with '-' is outside. "
                   "Environment variables naming no argument are not settings (ignored by design). Non-ASCII key names are outside the envVar model.",
 }
@@ -66,7 +93,9 @@ F_NULL = "C05-null-non-optional"
 F_LIT = "C05-literal-int-accepts-bool"
 F_DICT = "C05-dict-item-dotted-mapping"
 F_CLASH = "C05-clash-named-argument"
-CLASH_HINTS = ("enum", "dictint", "dictstr", "any", "tupint", "tupvar", "float", "ufloat", "listfloat", "yesno")   # value converted by _check_value_key, or a dict
+CLASH_HINTS = ("enum", "dictint", "dictstr", "any", "tupint", "tupvar", "float", "ufloat", "listfloat", "yesno",
+               # items converted by their Union ('~' / '#x' -> None at Optional[str], '1' -> 1 at Union[int, str])
+               "listoptstr", "listustr", "dictoptstr", "tupoptstr", "optlistoptstr", "listlistustr", "tdict")   # value converted by _check_value_key, or a dict
 
 warnings.simplefilter("ignore")
 
@@ -82,7 +111,11 @@ LOOKALIKE = ["1", "true", "null", "1e3", "0123", "[1]", "{a: 1}", " padded ", "a
              "!!int 3", "*a", "&a", "%x", "@x", "`x", "/tmp", "x:", "{}", "[]", "yes", "True", ".5", "1_000", "0x10", "2020-01-01", "1:30",
              "a,b", "null ", "0", "-0", "+1", "1.0", "no", "on", "None", "plain", "two words", "a.b", "a__b", "é", '"dq"', "a\\b", "a\nb", "\t",
              "${x}", "-5", "0o17", ".inf", ".nan", "<<", "=", "? a", "- a", "|", ">", "a #b", "{\"a\": 1}", "[1, 2]",
-             "YQ==", "a=b=c", "k=", "=v", "http://h/p?q=1&r=2", "x==y", "QUJD=="]
+             "YQ==", "a=b=c", "k=", "=v", "http://h/p?q=1&r=2", "x==y", "QUJD==",
+             " ", "  ", "\n", " a", "a ", "a\n", "\na", " 1", "1 ", "true ", " null", "\u65e5\u672c\u8a9e", "\u00df", "\u0130", "\u00f1o", "\u00a0", "x\u00a0",
+             "1E3", "0b11", "1,000", "\u0663", "TRUE", "Null", "NO", "off", "y", "n", "[", "]", "{", "}", "[1", "{a", "- ", "? ", ": "]
+# the empty string, blank and padded strings: a present-but-empty option / variable / document value is a setting like any other
+BLANKS = ["", "", "", " ", "  ", "\t", "\n", " a", "a ", " a b ", "\na", "a\n"]
 EQ_STRINGS = ["a=b", "YQ==", "a=b=c", "k=", "=v", "http://h/p?q=1&r=2", "x==y", "QUJD==", "plain", "1", "true", "two words", ""]
 ITEM_NAMES = ["filter", "token", "url", "a", "k_2", "B"]
 CHOICES = ["fast", "slow", "1"]
@@ -90,7 +123,10 @@ LIT_MEMBERS = ["a", "b", "1", "true", "null", " x ", "[1]"]
 NAMES = ["a", "b", "c", "x", "y", "lr", "n_1", "opt", "items", "keys", "Ab", "v2", "w", "name"]
 GROUP_PATHS = ["g", "h", "g.s", "model"]
 HINTS = ["int", "int", "bool", "str", "str", "optint", "listint", "dictint", "lit", "enum", "posint", "liststr", "any", "litint", "tupint", "tupvar",
-         "float", "ufloat", "listfloat", "yesno", "dictstr", "choice"]
+         "float", "ufloat", "listfloat", "yesno", "dictstr", "choice",
+         # containers whose ITEM type is a Union with str: the str member must never be fed the text of the whole option
+         "listoptstr", "listustr", "dictoptstr", "tupoptstr", "optlistoptstr", "listlistustr", "tdict"]
+STR_UNION_CONTAINERS = ("listoptstr", "listustr", "dictoptstr", "tupoptstr", "optlistoptstr", "listlistustr", "tdict")
 # a float setting is a JSON number token in a given SPELLING {"$f": "1e5"} (json.dumps never writes 1e5 / 2E3 / 1E-3, hand-written documents do);
 # a yes/no setting is a boolean with the WORD used where a channel carries text {"$b": "YES", "neg": false}
 FLOAT_SPELLINGS = ["0.5", "1.5", "-2.25", "100000.0", "1e+16", "1e-05", "3", "-7", "0.0",                # what json.dumps / repr write (and ints)
@@ -102,10 +138,29 @@ INT_POOL = [0, 1, -1, 7, -5, 123, 10, 2**31, -(2**63), 10**20, 99]
 DICT_KEYS = ["a", "b", "b c", "1", "true", "null", "k_2", "A"]
 
 
+_TDICT = None
+
+
+def tdict_type():
+    global _TDICT
+    if _TDICT is None:
+        from typing import Optional, TypedDict
+
+        _TDICT = TypedDict("C05Rec", {"a": Optional[str], "n": int})
+    return _TDICT
+
+
 def hint_type(h):
     from typing import Any, Dict, List, Literal, Optional, Tuple, Union
 
     from jsonargparse.typing import PositiveInt
+
+    if h == "tdict":
+        return tdict_type()
+    if h in STR_UNION_CONTAINERS:
+        return {"listoptstr": List[Optional[str]], "listustr": List[Union[int, str]], "dictoptstr": Dict[str, Optional[str]],
+                "tupoptstr": Tuple[Optional[str], int], "optlistoptstr": Optional[List[Optional[str]]],
+                "listlistustr": List[List[Union[int, str]]]}[h]
 
     return {"int": int, "bool": bool, "str": str, "optint": Optional[int], "listint": List[int], "dictint": Dict[str, int],
             "lit": Literal[tuple(LIT_MEMBERS)], "enum": Color, "posint": PositiveInt, "liststr": List[str], "any": Any,
@@ -118,7 +173,9 @@ DEFAULTS = {"int": [0, 7], "bool": [False, True], "str": ["x", "dflt"], "optint"
             "lit": ["a"], "enum": ["red"], "posint": [1, 4], "liststr": [[], ["d"]], "any": [None, 0], "litint": [1],
             "tupint": [[0, 0], [3, -4]], "tupvar": [[], [8]],      # given to add_argument as tuples (normal form)
             "float": [0.5, 2.0], "ufloat": [1.5], "listfloat": [[], [0.25]], "yesno": [False, True],
-            "dictstr": [{}, {}], "choice": ["fast", "slow"]}
+            "dictstr": [{}, {}], "choice": ["fast", "slow"],
+            "listoptstr": [[], ["d", None]], "listustr": [[], [3, "d"]], "dictoptstr": [{}, {}], "tupoptstr": [[None, 0], ["d", 2]],
+            "optlistoptstr": [None, []], "listlistustr": [[], [[1, "d"]]], "tdict": [{"a": None, "n": 0}, {"a": "d", "n": 2}]}
 
 
 def gen_default(rng, h):
@@ -133,7 +190,9 @@ def gen_value(rng, h):
     if h == "bool":
         return rng.random() < 0.5
     if h == "str":
-        return rng.choice(LOOKALIKE)
+        return rng.choice(BLANKS) if rng.random() < 0.15 else rng.choice(LOOKALIKE)
+    if h in STR_UNION_CONTAINERS:
+        return gen_str_union_value(rng, h)
     if h == "optint":
         return None if rng.random() < 0.4 else rng.choice(INT_POOL)
     if h == "listint":
@@ -168,26 +227,63 @@ def gen_value(rng, h):
     raise MachineryError("hint " + h)
 
 
+WORDS = ["a", "b c", "x-1", "plain", "two words", "", " ", "a: b", "#x", "[1]", "~"]        # strings no other member of the item Unions reads
+
+
+def gen_str_union_value(rng, h):
+    def optstr():
+        return None if rng.random() < 0.3 else rng.choice(WORDS)
+
+    def ustr():
+        return rng.choice(INT_POOL) if rng.random() < 0.4 else rng.choice(WORDS)
+    n = rng.choice([0, 1, 2, 3])
+    if h == "listoptstr":
+        return [optstr() for _ in range(n)]
+    if h == "listustr":
+        return [ustr() for _ in range(n)]
+    if h == "dictoptstr":
+        return {k: optstr() for k in rng.sample(ITEM_NAMES, n)}
+    if h == "tupoptstr":
+        return [optstr(), rng.choice(INT_POOL)]
+    if h == "optlistoptstr":
+        return None if rng.random() < 0.2 else [optstr() for _ in range(n)]
+    if h == "listlistustr":
+        return [[ustr() for _ in range(rng.choice([0, 1, 2]))] for _ in range(n)]
+    if h == "tdict":
+        return {"a": optstr(), "n": rng.choice(INT_POOL)}
+    raise MachineryError("hint " + h)
+
+
 # values that every channel must reject at a position of the hint (text unambiguous, no None: see F_NULL)
 WRONG = {
-    "int": ["abc", True, [1], "1x", {"a": 1}],
-    "posint": [0, -3, "abc", True, [1]],
-    "bool": [5, "abc", [True], 0],
-    "optint": ["abc", True, [1]],
-    "listint": [[1, "a"], 5, {"a": 1}, "abc", [True], [None]],
+    "int": ["abc", True, [1], "1x", {"a": 1}, "", " "],
+    "posint": [0, -3, "abc", True, [1], ""],
+    "bool": [5, "abc", [True], 0, "", " "],
+    "optint": ["abc", True, [1], ""],
+    "listint": [[1, "a"], 5, {"a": 1}, "abc", [True], [None], "", [""]],
     "liststr": [[1], ["a", None], "abc", 5, {"a": 1}],
     "dictint": [{"a": "x"}, [1], 5, "abc", {"a": True}, {"a": None}],
     "lit": ["zzz", "A", "x"],
     "enum": ["purple", "RED", "1"],
     "litint": [3, 0, "abc", [1], False],
-    "float": ["abc", True, [1], "1e", "e5"],
-    "listfloat": [["a"], 5, "abc", [True]],
+    "float": ["abc", True, [1], "1e", "e5", "", " "],
+    "listfloat": [["a"], 5, "abc", [True], "", [""]],
     "yesno": ["abc", "maybe", 5, "1", [True]],
     # a single-choice option: a LIST is never a choice, also when it is made of allowed words only
     "choice": [["fast", "slow"], ["fast"], ["fast", "zzz"], "zzz", 5, ["1", "1"], []],
     "dictstr": [{"a": 1}, [1], "abc", {"a": None}, {"a": ["x"]}],
     "tupint": [[1], [1, 2, 3], [1, "a"], "abc", 5, [True, 1]],
-    "tupvar": [[1, "a"], "abc", 5, {"a": 1}, [None]],
+    "tupvar": [[1, "a"], "abc", 5, {"a": 1}, [None], ""],
+    # an item that is not a string and fits no other member of the item Union: never accepted, whatever text the whole option had
+    "listoptstr": [["a", 2.5], [True], [["x"]], [{"a": 1}], [1], ["a", None, 0.5], 5, "abc", {"a": "x"}, ""],
+    "listustr": [[2.5], [1, True], [None], [[1]], ["a", 1.5, 2], 5, "abc", ""],
+    "dictoptstr": [{"a": 2.5}, {"a": "x", "b": True}, {"a": [1]}, {"a": 1}, [1], 5, "abc", ""],
+    "tupoptstr": [[2.5, 1], [True, 1], ["a", "b"], ["a"], [[1], 1], [None, None], 5, "abc"],
+    "optlistoptstr": [[2.5], ["a", True], [[None]], 5, {"a": 1}, "abc"],
+    "listlistustr": [[[2.5]], [[1], [None]], [["a", True]], [1], [[1, [2]]], 5, "abc"],
+    # (a field that no member accepts was given the text of the whole option before repair F62, /repo 6fc0048)
+    "tdict": [{"a": "x"}, {"a": "x", "n": "y"}, {"a": "x", "n": 1, "z": 1}, {"n": 1.5, "a": None}, [1], 5, "abc",
+              {"a": 2.5, "n": 1}, {"a": True, "n": 0}, {"a": [1], "n": 3}],
 }
 
 
@@ -377,6 +473,10 @@ VALUE_POOL = {
     "float": [{"$f": t} for t in FLOAT_SPELLINGS], "ufloat": [{"$f": t} for t in FLOAT_SPELLINGS],
     "listfloat": [[], [{"$f": "1e5"}, {"$f": "0.5"}], [{"$f": "2E3"}]],
     "yesno": [{"$b": w, "neg": n} for w in YES_WORDS + NO_WORDS for n in (False, True)],
+    "listoptstr": [[], [None], ["a", None, ""], [" ", "a: b", "[1]", "~"]], "listustr": [[], [1, "a"], ["", -5, "b c"]],
+    "dictoptstr": [{}, {"a": None}, {"a": "x", "k_2": "", "B": None}], "tupoptstr": [[None, 0], ["a", -1], ["", 7]],
+    "optlistoptstr": [None, [], [None, "a"]], "listlistustr": [[], [[]], [[1, "a"], [], ["b c"]]],
+    "tdict": [{"a": None, "n": 1}, {"a": "x", "n": -5}, {"n": 3, "a": ""}],
 }
 
 
@@ -418,8 +518,10 @@ def add_args(parser, args, group=None):
             d = [Color[x] for x in d] if a["hint"] == "enum" else list(d)
         elif a["hint"] == "enum":
             d = Color[d]
-        elif a["hint"] in ("tupint", "tupvar"):
+        elif a["hint"] in ("tupint", "tupvar", "tupoptstr"):
             d = tuple(d)
+        elif isinstance(d, (list, dict)):
+            d = json.loads(json.dumps(d))
         target = grp if grp is not None and a["key"].split(".")[0] == group else parser
         if a["hint"] == "yesno":
             from jsonargparse import ActionYesNo
@@ -676,7 +778,7 @@ MODEL_CHANNEL = {"argv_eq": "argv", "argv_sp": "argv", "cfg_str_nested": "cfgNes
                  "parse_string": "cfgNested", "parse_path": "cfgNested", "obj_nested": "objNested", "obj_dotted": "objDotted", "env": "env",
                  "mode_json": "cfgNested", "mode_jsonnet": "cfgNested", "mode_omegaconf": "cfgNested", "parse_env": "env", "env_bare": "env"}     # doc_word / obj_word (a word as a string in a document) are oracle only
 _MODES = None
-_NEG_NUM = re.compile(r"^-\d+$|^-\d*\.\d+$")
+_NEG_NUM = re.compile(r"^-\d+\Z|^-\d*\.\d+\Z")
 
 
 def available_modes():
@@ -1007,6 +1109,10 @@ def judge(ctx: Ctx, case, origin):
         return outs, False
 
     disagree = dev.startswith("channels disagree")
+    if sum(1 for v in ctx.violations if v.get("found_input")) >= 6:
+        # enough concrete failing inputs have been minimised and recorded: count the rest (keeps a run against a broken tree short)
+        ctx.extra["further_deviations_not_minimised"] = ctx.extra.get("further_deviations_not_minimised", 0) + 1
+        return outs, True
 
     def still(c):
         # the shrunk case must fail in the same way: "invalid settings accepted by every channel" depends on the settings being the
@@ -1030,8 +1136,8 @@ def judge(ctx: Ctx, case, origin):
 
 
 # ---------------------------------------------------------------- model side: wire formats
-SAFE_RE = re.compile(r'^[ !#-\[\]-~]*$')     # printable ASCII without '"' and '\\'
-TOKEN_RE = re.compile(r'^-?(0|[1-9][0-9]*)(\.[0-9]+)?([eE][+-]?[0-9]+)?$')
+SAFE_RE = re.compile(r'^[ !#-\[\]-~]*\Z')     # printable ASCII without '"' and '\\'
+TOKEN_RE = re.compile(r'^-?(0|[1-9][0-9]*)(\.[0-9]+)?([eE][+-]?[0-9]+)?\Z')
 
 
 def is_token(t):
@@ -1061,7 +1167,7 @@ def default_in_grammar(d):
             return is_token(repr(x))
         return in_grammar(x)
     if isinstance(d, list):
-        return all(ok(x) for x in d)
+        return all(ok(x) and not isinstance(x, (list, dict)) for x in d)
     return ok(d)
 
 
@@ -1194,6 +1300,8 @@ def model_ok(case):
             return False
         if is_b(v) != (a is not None and a["hint"] == "yesno"):
             return False
+        if a is not None and a["hint"] in STR_UNION_CONTAINERS:
+            return False     # the item Unions convert ('1' -> 1, 'null' -> None): the typed layer (correspond_typed), not the flat channel model
         if a is not None and a["hint"] in ("float", "ufloat", "listfloat"):
             # an integer literal at a float position ('3' -> 3.0) is the type adapter's conversion (C02), not a token of the model
             if not all(is_f(x) for x in (v if isinstance(v, list) else [v])):
@@ -1456,6 +1564,327 @@ def correspond_branch_keys(ctx: Ctx, rng, n):
                       json.dumps({"dests": dests, "table": tables}))
 
 
+# ---------------------------------------------------------------- typed part: model (Core/ChannelsTyped) vs the real _check_type, per kind of channel
+_TD_N = [0]
+_TD_CACHE = {}
+
+
+def ty_python(t):
+    """model type (wire form) -> Python type hint"""
+    from typing import Dict, List, Optional, Tuple, TypedDict, Union  # noqa: F401
+
+    if isinstance(t, str):
+        return {"int": int, "float": float, "bool": bool, "str": str, "none": type(None)}[t]
+    (k, a), = t.items()
+    if k == "enum":
+        return Color
+    if k == "union":
+        return Union[tuple(ty_python(x) for x in a)]
+    if k == "list":
+        return List[ty_python(a)]
+    if k == "dict":
+        return Dict[str, ty_python(a)]
+    if k == "tupleVar":
+        return Tuple[ty_python(a), ...]
+    if k == "tuple":
+        return Tuple[tuple(ty_python(x) for x in a)]
+    if k == "tdict":
+        key = json.dumps(t, sort_keys=True)
+        if key not in _TD_CACHE:
+            _TD_N[0] += 1
+            _TD_CACHE[key] = TypedDict("C05TD%d" % _TD_N[0], {n: ty_python(x) for n, x in zip(a[0], a[1])})
+        return _TD_CACHE[key]
+    raise MachineryError("type " + json.dumps(t))
+
+
+def ty_wire(tp):
+    """Python type hint -> model type, read off the type OBJECT: typing caches parametrised generics by an order-insensitive key
+    (List[Union[str, int]] may come back as a previously built List[Union[int, str]]), so the member order is taken from the object used"""
+    from typing import Union, get_args, get_origin
+
+    if tp in (int, float, bool, str):
+        return tp.__name__
+    if tp is type(None):
+        return "none"
+    if tp is Color:
+        return {"enum": ["red", "blue", "green"]}
+    o, a = get_origin(tp), get_args(tp)
+    if o is Union:
+        return {"union": [ty_wire(x) for x in a]}
+    if o is list:
+        return {"list": ty_wire(a[0])}
+    if o is dict:
+        return {"dict": ty_wire(a[1])}
+    if o is tuple:
+        if len(a) == 2 and a[1] is Ellipsis:
+            return {"tupleVar": ty_wire(a[0])}
+        return {"tuple": [ty_wire(x) for x in a]}
+    if isinstance(tp, type) and issubclass(tp, dict) and hasattr(tp, "__annotations__"):
+        return {"tdict": [list(tp.__annotations__), [ty_wire(x) for x in tp.__annotations__.values()]]}
+    raise MachineryError("type %r" % (tp,))
+
+
+LEAF_TYS = ["int", "float", "bool", "str", {"enum": ["red", "blue", "green"]}]
+TY_WORDS = ["a", "b c", "red", "x-1", "", " ", "1", "null", "true", "2.5", "[1]", "a: b", "~", "blue"]
+
+
+def gen_ty(rng, depth=0):
+    r = rng.random()
+    if depth >= 2 or r < 0.3:
+        return rng.choice(LEAF_TYS)
+    if r < 0.55:
+        members = []
+        pool = LEAF_TYS + (["none", "none"] if True else [])
+        for m in rng.sample(pool, rng.choice([2, 2, 3])):
+            if m not in members:
+                members.append(m)
+        if depth < 2 and rng.random() < 0.4:
+            members.insert(rng.randint(0, len(members)), gen_container(rng, depth + 1))
+        if len(members) < 2:
+            members.append("none" if "none" not in members else "int")
+        return {"union": members}
+    return gen_container(rng, depth)
+
+
+def gen_container(rng, depth):
+    k = rng.choice(["list", "list", "dict", "tupleVar", "tuple", "tdict"])
+    if k in ("list", "dict", "tupleVar"):
+        return {k: gen_ty(rng, depth + 1)}
+    if k == "tuple":
+        return {"tuple": [gen_ty(rng, depth + 1) for _ in range(rng.choice([1, 2, 3]))]}
+    names = rng.sample(["a", "n", "k_2", "B"], rng.choice([1, 2, 3]))
+    return {"tdict": [names, [gen_ty(rng, depth + 1) for _ in names]]}
+
+
+def gen_scalar_any(rng):
+    return rng.choice([None, True, False, 0, 1, -5, 10**20, 2.5, -0.25, 1e16, "a", "red", "", "1", "null", [1], {"a": 1}, [], {}])
+
+
+def gen_val_for(rng, t, wrong=0.12):
+    """a value for the type: mostly fitting, sometimes (at any depth) something else"""
+    if rng.random() < wrong:
+        return gen_scalar_any(rng)
+    if isinstance(t, str):
+        if t == "int":
+            return rng.choice(INT_POOL)
+        if t == "float":
+            return rng.choice([2.5, -0.25, 1e16, 1e-05, 3, 0.0, 100000.0])
+        if t == "bool":
+            return rng.random() < 0.5
+        if t == "str":
+            return rng.choice(TY_WORDS)
+        return None
+    (k, a), = t.items()
+    if k == "enum":
+        return rng.choice(a)
+    if k == "union":
+        return gen_val_for(rng, rng.choice(a), wrong)
+    n = rng.choice([0, 1, 2, 3])
+    if k in ("list", "tupleVar"):
+        return [gen_val_for(rng, a, wrong) for _ in range(n)]
+    if k == "dict":
+        return {key: gen_val_for(rng, a, wrong) for key in rng.sample(ITEM_NAMES, n)}
+    if k == "tuple":
+        items = [gen_val_for(rng, x, wrong) for x in a]
+        if rng.random() < 0.08:
+            items = items[:-1] if rng.random() < 0.5 else items + [1]
+        return items
+    if k == "tdict":
+        d = {name: gen_val_for(rng, x, wrong) for name, x in zip(a[0], a[1])}
+        r = rng.random()
+        if r < 0.06 and d:
+            d.pop(rng.choice(sorted(d)))
+        elif r < 0.12:
+            d["zz"] = 1
+        return d
+    raise MachineryError("type " + json.dumps(t))
+
+
+def pv_wire(x):
+    """Python value -> model wire value (floats as the token repr() writes); None if not representable"""
+    if x is None or isinstance(x, (bool, str)):
+        return ("ok", x)
+    if isinstance(x, int):
+        return ("ok", x)
+    if isinstance(x, float):
+        r = repr(x)
+        return ("ok", {"f": r}) if is_token(r) else None
+    if isinstance(x, enum.Enum):
+        return ("ok", x.name)
+    if isinstance(x, (list, tuple)):
+        items = [pv_wire(i) for i in x]
+        if any(i is None for i in items):
+            return None
+        items = [i[1] for i in items]
+        return ("ok", {"t": items} if isinstance(x, tuple) else items)
+    if isinstance(x, dict):
+        out = []
+        for k, v in x.items():
+            w = pv_wire(v)
+            if w is None or not isinstance(k, str):
+                return None
+            out.append([k, w[1]])
+        return ("ok", {"d": out})
+    return None
+
+
+def pv_canon(w):
+    """model wire value -> canonical comparison form (floats by repr of the float; an int turned float likewise)"""
+    if isinstance(w, dict) and "f" in w:
+        return ["f", repr(float(w["f"]))]
+    if isinstance(w, dict) and "fi" in w:
+        return ["f", repr(float(w["fi"]))]
+    if isinstance(w, dict) and "d" in w:
+        return ["D", [[k, pv_canon(v)] for k, v in w["d"]]]
+    if isinstance(w, dict) and "t" in w:
+        return ["T", [pv_canon(v) for v in w["t"]]]
+    if isinstance(w, list):
+        return ["L", [pv_canon(v) for v in w]]
+    if w is None:
+        return ["0"]
+    if isinstance(w, bool):
+        return ["b", w]
+    if isinstance(w, int):
+        return ["i", str(w)]
+    return ["s", w]
+
+
+def real_canon_typed(c):
+    """canonical real value with Enum members by name (the model has no Enum values)"""
+    if c[0] == "E":
+        return ["s", c[1]]
+    if c[0] in ("L", "T"):
+        return [c[0], [real_canon_typed(x) for x in c[1]]]
+    if c[0] == "D":
+        return ["D", [[k, real_canon_typed(v)] for k, v in c[1]]]
+    return c
+
+
+def typed_parser(pt):
+    from jsonargparse import ArgumentParser
+
+    p = ArgumentParser(exit_on_error=False, env_prefix="APP", default_env=False)
+    p.add_argument("--v", type=pt, default=None)
+    return p
+
+
+def typed_real(t, fn):
+    o = outcome(lambda: fn(typed_parser(t)).v)
+    return None if "rej" in o else real_canon_typed(o["ok"])
+
+
+def correspond_typed(ctx: Ctx, rng, n):
+    """model checkType (text channel / value channel) vs the real parser on one typed option; the loaders of the model are
+    finite tables filled with what the real loaders return on the strings that occur"""
+    from jsonargparse import ArgumentParser
+    from jsonargparse._common import parser_context
+    from jsonargparse._loaders_dumpers import json_or_yaml_load, load_value
+
+    fixed = [
+        ({"list": {"union": ["str", "none"]}}, ["a", 2.5]), ({"list": {"union": ["str", "none"]}}, ["a", None, ""]),
+        ({"list": {"union": ["int", "str"]}}, [1, "a", "1", 2.5]), ({"dict": {"union": ["str", "none"]}}, {"a": 2.5}),
+        ({"tuple": [{"union": ["str", "none"]}, "int"]}, [2.5, 1]), ({"tupleVar": {"union": ["str", "none"]}}, [True]),
+        ({"union": [{"list": {"union": ["str", "none"]}}, "none"]}, [2.5]), ({"list": {"list": {"union": ["int", "str"]}}}, [[2.5]]),
+        ({"tdict": [["a", "n"], [{"union": ["str", "none"]}, "int"]]}, {"a": 2.5, "n": 1}),
+        ({"tdict": [["a", "n"], [{"union": ["str", "none"]}, "int"]]}, {"a": "x", "n": 1}),
+        ({"tdict": [["a", "n"], [{"list": {"union": ["str", "none"]}}, "int"]]}, {"a": [2.5], "n": 1}),
+        ({"union": ["int", "str"]}, 2.5), ({"union": ["int", "str"]}, 7), ({"union": ["str", "none"]}, "null"), ("str", ""), ("str", "null"),
+        ("str", "[1]"), ("str", " "), ("int", ""), ("float", 3), ("float", "1e3"), ("bool", "true"), ({"enum": ["red", "blue", "green"]}, "red"),
+        ({"union": [{"enum": ["red", "blue", "green"]}, "int"]}, "purple"), ({"union": ["int", {"list": "int"}]}, [1, 2]),
+        ({"union": ["int", {"list": "int"}]}, "[1, 2]"), ({"union": [{"dict": "int"}, {"list": "int"}, "float"]}, {"a": 1}),
+    ]
+    cases = list(fixed) + [None] * n
+    lines, meta = [], []
+    for fx in cases:
+        if fx is None:
+            t = gen_ty(rng)
+            v = gen_val_for(rng, t)
+        else:
+            t, v = fx
+        pt = ty_python(t)
+        t = ty_wire(pt)
+        wv = pv_wire(v)
+        if wv is None:
+            ctx.hist("typed_skipped", "value not representable")
+            continue
+        s = None if isinstance(v, str) else jdumps(v)
+        strings = set(all_strs(v)) | ({s} if s is not None else set())
+        ltab, ytab, okay = [], [], True
+        with parser_context(parent_parser=ArgumentParser(exit_on_error=False), load_value_mode="yaml"):
+            for x in sorted(strings):
+                try:
+                    lw = pv_wire(load_value(x, simple_types=True)) if x.strip() != "" else ("ok", x)
+                except Exception:  # noqa: BLE001 - `except get_loader_exceptions()`: the text stays
+                    lw = ("ok", x)
+                try:
+                    yw = pv_wire(json_or_yaml_load(x))
+                except Exception:  # noqa: BLE001 - suppressed by the basic-types branch: the text stays
+                    yw = ("ok", x)
+                if lw is None or yw is None:
+                    okay = False
+                    break
+                ltab.append([x, lw[1]])
+                ytab.append([x, yw[1]])
+        if not okay:
+            ctx.hist("typed_skipped", "a loader returns a value outside the wire grammar (date, inf ...)")
+            continue
+        lines.append({"op": "typed", "t": t, "v": wv[1], "s": s, "L": ltab, "Y": ytab})
+        meta.append((pt, t, v, s, wv[1], dict((k, json.dumps(x)) for k, x in ltab), dict((k, json.dumps(x)) for k, x in ytab)))
+    res = model_batch(ctx, lines)
+    if res is None:
+        return
+    n_thm = 0
+    for (pt, t, v, s, wv, ltab, ytab), m in zip(meta, res):
+        ctx.count()
+        detail = {"type": t, "value": v, "text": s}
+        mv = None if m["value"] is None else pv_canon(m["value"]["some"])
+        if v is not None:
+            rv = typed_real(pt, lambda p: p.parse_object({"v": json.loads(json.dumps(v))}))
+            if rv != mv:
+                ctx.tie_break("correspondence checkType (value channel) vs parse_object disagrees",
+                              json.dumps(dict(detail, real=rv, model=mv), ensure_ascii=True)[:1500])
+                return
+        if s is None:
+            ctx.hist("typed_routing", "string setting: one channel kind")
+            continue
+        mt = None if m["text"] is None else pv_canon(m["text"]["some"])
+        rt = typed_real(pt, lambda p: p.parse_args(["--v=" + s]))
+        re_ = typed_real(pt, lambda p: p.parse_env({"APP_V": s}))
+        if rt != mt or re_ != mt:
+            ctx.tie_break("correspondence checkType (text channel) vs parse_args / parse_env disagrees",
+                          json.dumps(dict(detail, argv=rt, env=re_, model=mt), ensure_ascii=True)[:1500])
+            return
+        in_thm = (m["noStrTop"] and m["noEnumName"] and m["textOk"] and ltab.get(s) == json.dumps(wv) and ytab.get(s) == json.dumps(wv))
+        if in_thm:
+            n_thm += 1
+            ctx.hist("typed_routing", "inside C05_typed_channels (accepted by both)" if mt is not None else "inside C05_typed_channels (rejected by both)")
+            ctx.nontrivial("typed:" + json.dumps([t, v], sort_keys=True, ensure_ascii=True))
+            if mt != mv:
+                ctx.tie_break("model: viaText differs from viaValue under the hypotheses of C05_typed_channels", json.dumps(detail, ensure_ascii=True)[:1500])
+                return
+            if v is not None and rt != rv:
+                ctx.violation("a typed option: the text through the command line / environment and the value through parse_object differ: %r vs %r" % (rt, rv),
+                              {"kind": "typed", "type": t, "value": v, "text": s})
+                return
+        else:
+            ctx.hist("typed_routing", "outside the theorem (str reachable from the top / loaders read the text differently)")
+    ctx.extra["typed_cases"] = len(meta)
+    ctx.extra["typed_cases_inside_theorem"] = n_thm
+
+
+def _ty_kinds(t):
+    if isinstance(t, str):
+        return [t]
+    (k, a), = t.items()
+    if k == "enum":
+        return [k]
+    if k in ("union", "tuple"):
+        return [k] + [x for m in a for x in _ty_kinds(m)]
+    if k == "tdict":
+        return [k] + [x for m in a[1] for x in _ty_kinds(m)]
+    return [k] + _ty_kinds(a)
+
+
 def model_batch(ctx: Ctx, lines):
     if not lines:
         return []
@@ -1584,7 +2013,8 @@ def run(ctx: Ctx):
     repo_python_path()
     ctx.rule = ("generated parsers (2-5 flat or dotted arguments of depth 1-3 over int, PositiveInt, bool, str, Optional[int], List[int], List[str], "
                 "Dict[str,int], Literal[strings], Literal[ints], Enum, Any, Tuple[int,int], Tuple[int,...]; optional argument group; list-valued options "
-                "nargs=1/2/+/*; optional sub-command level with 2 sub-parsers; env_prefix variants) x settings (subset of the "
+                "nargs=1/2/+/*; containers with Union[...,str] items: List[Optional[str]], List[Union[int,str]], Dict[str,Optional[str]], Tuple[Optional[str],int], "
+                "Optional[List[Optional[str]]], List[List[Union[int,str]]], TypedDict; optional sub-command level with 2 sub-parsers; env_prefix variants) x settings (subset of the "
                 "arguments in random order; non-string values anywhere, strings only at str-typed positions from a look-alike-heavy alphabet; "
                 "invalid: wrong type at one key, unknown key) x 13 channels (+ parse_env(mapping), + bare item for a list-valued option) on fresh parsers; one evaluation = one channel run or one model/real "
                 "comparison; non-trivial = a case where >= 2 channels ran and either every channel accepted a configuration different from the "
@@ -1600,7 +2030,7 @@ def run(ctx: Ctx):
         "defaults are in normal form (finding 15e concerns non-normal defaults, property C10)",
         "key names and env prefixes are ASCII (str.upper on non-ASCII is outside the envVar model)",
     ]
-    ctx.lean_build(extractors=["ns_tables", "yesno_words", "channel_tables"])
+    ctx.lean_build(extractors=["ns_tables", "yesno_words", "channel_tables", "channel_src"])
     ctx.extra["parser_modes_available"] = dict(available_modes())
 
     from ..lib import corpus as corpus_mod
@@ -1623,6 +2053,7 @@ def run(ctx: Ctx):
     correspond_text(ctx, ctx.rng, ctx.budget(300, 3000))
     correspond_yesno(ctx, ctx.rng)
     correspond_branch_keys(ctx, ctx.rng, ctx.budget(25, 200))
+    correspond_typed(ctx, ctx.rng, ctx.budget(250, 3000))
     if ctx.search_boost > 1:    # a tie is broken: search harder for a concrete failing input
         for _ in range(ctx.budget(2 * n_random, n_random // 2)):
             cases.append((gen_case(ctx.rng), "generated (boosted)"))
@@ -1653,7 +2084,8 @@ def run(ctx: Ctx):
     # --- model vs real, channel by channel
     correspond_channels(ctx, judged)
 
-    # --- catalogued findings
+    # --- catalogued findings (repaired ones: their demonstrations must pass on the current tree)
+    ctx.replay_fixed_demos()
     for f in ctx.open_findings():
         case = f["witness"]["case"]
         outs = run_channels(case)
@@ -1685,6 +2117,19 @@ def probe_row5d():
 def replay(ctx: Ctx, body):
     repo_python_path()
     rp = body["replay"]
+    if rp.get("kind") == "demo":
+        import subprocess
+
+        from ..lib.common import REPO, VERIF
+        p = subprocess.run(["/venv/bin/python", os.path.join(VERIF, rp["demo"])], env=dict(os.environ, PYTHONPATH=REPO))
+        return 1 if p.returncode != 0 else 0
+    if rp.get("kind") == "typed":
+        pt = ty_python(rp["type"])
+        rv = typed_real(pt, lambda p: p.parse_object({"v": rp["value"]}))
+        rt = typed_real(pt, lambda p: p.parse_args(["--v=" + rp["text"]]))
+        re_ = typed_real(pt, lambda p: p.parse_env({"APP_V": rp["text"]}))
+        print("  parse_object %s\n  argv         %s\n  environment  %s" % (rv, rt, re_))
+        return 1 if (rt != rv or re_ != rv) else 0
     if rp.get("kind") != "oracle":
         print("nothing to re-run: %s" % json.dumps(rp)[:500])
         return 1
